@@ -43,7 +43,8 @@ fn gen(r: &mut Rng) -> Case {
     let rule = rand_rule(r, &RuleCfg::default());
     let planted = plant(&rule, r);
     // a quarter of the words are built from recurring syllables, so that inputs with back-references (`%=1 1`, `C=1 V 1`) match
-    let word = if r.chance(1, 4) { rand_echo_word(r, &WordCfg::default()) } else { rand_word(r, &WordCfg::default()) };
+    // and a third are instantiated from the rule itself (before the plant went in), so that everything but the plant matches
+    let word = match r.below(12) { 0..=2 => rand_echo_word(r, &WordCfg::default()), 3..=6 => witness_word(&rule, r).unwrap_or_else(|| rand_word(r, &WordCfg::default())), _ => rand_word(r, &WordCfg::default()) };
     Case { rule: plain(&planted), unplanted: plain(&rule), word }
 }
 
